@@ -31,6 +31,7 @@ RULE = ('pool per shard: R-produced messages over every bundled master-table ver
         '(decode plain / compiled cache 0,1,2,n / aliased table roots, failing decode of a corrupted copy, encode, '
         're-render, re-wire, re-query of a kept object) under table-group limits 1,2,3 and 50; non-trivial = the step is '
         'preceded by a different message, a failure or an eviction; distinct by SHA-1 of (history prefix); table-sensitive pairs through marker / first-order / associated-field forms; table identifications outside the bundle; encode golden from an interpreter of its own; a long-lived querent that also serves malformed queries')
+RULE += "; added with rounds 10-12: a deterministic prologue of four simultaneous scans (no filter / accept-all / accept-nothing / metadata-only) per history; scans in flight across history steps; every third digest through the history's long-lived renderers and querents; twins"
 ASSUMPTIONS = ['golden digests are computed by the same tree in a fresh interpreter (the property is about history independence, not about FM-94)',
                'no table-definition (data category 11) message is processed in these histories',
                'the table-group cache size is read through a probe of TableGroupCacheManager._TABLE_GROUP_CACHE (evidence only)']
